@@ -4,12 +4,13 @@
 # violation, and the shrunk replay file is stored as a regression case.  Needed again whenever a
 # generator changes (tape-based replay files are tied to the decoder that reads them).
 cd /verif
-list="b2b9a4d:C05:F3 e093397:C05:F2 c151005:C02:F1 c151005:C05:F1 c151005:C12:F1 e801e73:C14:F4skip 226a9fd:C14:F11 226a9fd:C05:F11 b5397c6:C08:F6 b5397c6:C07:F6 578f66e:C08:F10 6a77f80:C17:F5 6a77f80:C05:F5 f48990e:C17:F12 f48990e:C05:F12 1c18886:C10:F7 f22bd16:C20:F9c 5dd8673:C20:F9a ece61dd:C19:F8 9ba2974:C04:F14 46a3e88:C06:F15 e81ad2f:C06:F16 a9712ef:C18:F17"
+list="b2b9a4d:C05:F3 e093397:C05:F2 c151005:C02:F1 c151005:C05:F1 c151005:C12:F1 e801e73:C14:F4skip 226a9fd:C14:F11 226a9fd:C05:F11 b5397c6:C08:F6 b5397c6:C07:F6 578f66e:C08:F10 6a77f80:C17:F5 6a77f80:C05:F5 f48990e:C17:F12 f48990e:C05:F12 1c18886:C10:F7 f22bd16:C20:F9c 5dd8673:C20:F9a ece61dd:C19:F8 9ba2974:C04:F14 46a3e88:C06:F15 e81ad2f:C06:F16 e81ad2f:C11:F16 a9712ef:C18:F17"
 for item in $list; do
   c=${item%%:*}; rest=${item#*:}; id=${rest%%:*}; tag=${rest#*:}
   case "$tag" in *skip) continue;; esac
+  [ -n "$ONLY" ] && [ "$ONLY" != "$id" ] && continue
   rm -rf replays/$id
-  tier=quick; [ "$tag" = "F16" ] && tier=thorough
+  tier=quick; [ "$tag" = "F16" ] && [ "$id" = "C06" ] && tier=thorough
   out=$(PBVERIF_NO_REGRESS=1 tools/with_revert.sh $c ./check $id $tier 2>/dev/null | grep "^VIOLATION" | head -1)
   f=$(echo "$out" | sed 's/.*replay=//')
   if [ -n "$f" ] && [ -f "$f" ]; then
